@@ -2,6 +2,7 @@ package main
 
 import (
 	"fmt"
+	"go/constant"
 	"go/token"
 	"go/types"
 	"strings"
@@ -869,6 +870,13 @@ func (w *World) condAtom(v ssa.Value, depth int) (op, l, r string, neg bool, kon
 				}
 				if isNilConst(bb) && w.sentinelError(a) {
 					b := x.Op.String() == "!="
+					return "", "", "", false, &b
+				}
+			}
+			// two constants (e.g. an enum value returned by a spliced decision helper compared with a case label)
+			if ca, ok := w.Resolve(x.X).(*ssa.Const); ok && ca.Value != nil {
+				if cb, ok := w.Resolve(x.Y).(*ssa.Const); ok && cb.Value != nil && ca.Value.Kind() == cb.Value.Kind() {
+					b := constant.Compare(ca.Value, x.Op, cb.Value)
 					return "", "", "", false, &b
 				}
 			}
